@@ -254,6 +254,14 @@ func NewHistoryCase(g *Gen, id int) (*Case, []string, string) {
 	ref := probe.run()
 	refCanon := fullCanon(&ref, n)
 	var tags, notes []string
+	if id%5 < 2 {
+		// the usual life of a schema: its issues are rendered, handed back, and the same schema object runs again
+		if ref.RawMap != nil {
+			z.Issues.CollectMap(ref.RawMap)
+		} else if ref.RawList != nil {
+			z.Issues.CollectList(ref.RawList)
+		}
+	}
 	// (b) history
 	internals.ClearPools()
 	k := 1 + g.R.Intn(5)
